@@ -104,6 +104,8 @@ XExpect(q) ==
 AccProgs == {[side |-> sd, setting |-> st] : sd \in {"target-unexported", "source-unexported"},
                st \in {"none", "ignore", "ignoreUnexported", "map", "mapfunc", "ignoreMissing"}}
             \cup {[side |-> "same-package", setting |-> st] : st \in {"none", "ignore", "ignoreUnexported"}}
+            \* mappath / automap: the unexported field is an *intermediate* element of the path (map inner.X Open, autoMap inner)
+            \cup {[side |-> "source-unexported", setting |-> st] : st \in {"mappath", "automap"}}
 \* same-package: the value secret must have for the source {Open: 5, secret: 6}: copied, or left unassigned by ignore / ignoreUnexported
 AccSecret(a) == IF a.setting = "none" THEN 6 ELSE 0
 AccExpect(a) ==
